@@ -589,7 +589,7 @@ theorem decode_spec (rows : Nat) (cols : List (List Int)) (td : Rat) :
           (x.off = cols.length ∨ cellAt cols x.pitch x.off ≠ x.vel)) := by
   constructor
   · rintro ⟨h1, h2⟩
-    simp [decode, h1, h2, tbl_dec_full, tbl_dec_piano]
+    simp [decode, tbl_dec_shapes, Model.lookup, Ne.symm h1, Ne.symm h2]
   · intro init hinit
     obtain ⟨h1, h2, h3⟩ := decodeRuns_spec cols
     exact ⟨fun h0 hne => h0 ▸ decode_div_zero rows cols hne, decode_eq rows cols td init hinit, h1, h2, h3⟩
